@@ -129,11 +129,28 @@ theorem C11_v2_takes_precedence (hmac : Bytes → Bytes → Bytes) (b64 : Bytes 
 
 /-- The region on which the verdict of the code is the verdict of the specification, as a decidable
     predicate: `WF` for the mode the request uses (query parameters as soon as `Signature` occurs, else
-    the header) and, for presigned URLs, (finding `signature-double-encoded`) no `%` left in the decoded
-    `Signature` value and (finding `expires-out-of-range`) `Expires` ≤ 253402300799. -/
+    the header) and, for presigned URLs, (finding `expires-out-of-range`) `Expires` ≤ 253402300799.
+    The `Signature` value is *not* restricted: it is compared exactly as the query parser delivers it
+    (the second percent-decoding, finding `signature-double-encoded`, is repaired). -/
 def WFV (r : SigV2Spec.Req) : Prop := wfVerdict r = true
 
 instance (r : SigV2Spec.Req) : Decidable (WFV r) := by unfold WFV; infer_instance
+
+/-- the credentials of a presigned URL are the query values themselves: whatever `PresignedUrlV2::parse`
+    returns as access key and signature is the unique `AWSAccessKeyId` / `Signature` value exactly as the
+    query parser delivered it (decoded once) — no further decoding of the signature (this is what the
+    repair of finding `signature-double-encoded` established) -/
+theorem C11_presigned_values_verbatim (q : Pairs) (p : Presigned) (h : parsePresigned q = some p) :
+    getUnique q (v2b!"AWSAccessKeyId") = some p.accessKey ∧ getUnique q (v2b!"Signature") = some p.signature := by
+  unfold parsePresigned at h
+  split at h
+  · rename_i ak ex sg hak hex hsg
+    split at h
+    · cases h
+    · simp only [Option.some.injEq] at h
+      subst h
+      exact ⟨hak, hsg⟩
+  · cases h
 
 /-- full statement: for every request, the code attributes it to `ak` iff the document does -/
 def C11_verdict_iff_spec_full : Prop :=
